@@ -69,6 +69,19 @@ def run_tlv(res, work, tier, seed):
         if rng.random() < 0.2 and b:
             b[rng.randrange(len(b))] = rng.randrange(256)
         runs.append({"run": rid, "cfg": {"kind": "view", "bytes": b, "probe": probe}, "ops": []})
+    # headers of 3..6 pairs with every combination of a few offsets (decreasing ones included), sorted tags, and payloads
+    # of exactly 0 / 4 / 8 / 12 bytes (a buffer cut right at the end of the header is the interesting corner)
+    def w32(x):
+        return [x & 255, (x >> 8) & 255, (x >> 16) & 255, (x >> 24) & 255]
+    for n in (3, 4, 5, 6):
+        combos = list(itertools.product([0, 4, 8], repeat=n - 1))
+        if len(combos) > 90:
+            combos = rng.sample(combos, 90)
+        for offs in combos:
+            for pay in (0, 4, 8, 12):
+                rid += 1
+                b = w32(n) + [x for o in offs for x in w32(o)] + [x for t in range(1, n + 1) for x in w32(t)] + [7] * pay
+                runs.append({"run": rid, "cfg": {"kind": "view", "bytes": b, "probe": probe + [n, n + 1]}, "ops": []})
     n_view = rid
     # C11: all small pair lists, three constructors, rotating sinks / Cow variants
     sinks = ["iovec", "hcobs", "dyn"]
